@@ -21,7 +21,7 @@ from ..tla import to_json
 TOL = 1e-9
 
 # operand kinds: V vector, M matrix, Q rational <<p, q>>, I integer scalar, K quarter turns, S letters,
-#                N raw index, B box of six numbers
+#                N raw index, B box of six numbers, R rational Mat4 <<integer matrix, common denominator>>
 OPS = {
     'add': ('VV', lambda m, a, b: a + b),
     'sub': ('VV', lambda m, a, b: a - b),
@@ -61,6 +61,7 @@ OPS = {
     'col': ('MN', lambda m, A, i: A.column(i)),
     'transpose': ('M', lambda m, A: A.transpose()),
     'inv': ('M', lambda m, A: ~A),
+    'invq': ('R', lambda m, A: ~A),
     'fromtrans': ('V', lambda m, v: m.Mat4.from_translation(v)),
     'fromscale': ('V', lambda m, v: m.Mat4.from_scale(v)),
     'translate': ('MV', lambda m, A, v: A.translate(v)),
@@ -134,6 +135,13 @@ class VecMathAdapter:
             return v * math.pi / 2
         if kind == 'S':
             return ''.join(v)
+        if kind == 'R':
+            # float entries only when they are exact (denominator a power of two): otherwise the float determinant of
+            # a singular matrix is rounding noise and the expected 'unchanged' answer would not be well defined
+            d, sc = v
+            if exact or sc & (sc - 1):
+                return self.m.Mat4(tuple(Fraction(x, sc) for x in d))
+            return self.m.Mat4(tuple(x / sc for x in d))
         if kind == 'B':
             return tuple(num(x) for x in v)
         return v
